@@ -718,6 +718,11 @@ def _scenario(side, label, bad_item, place, order, idx, eof=False, nsib=None):
   c = {"side": side, "label": label, "victim": victim, "sib": sib, "vpos": 0 if order == 0 else nsib}
   if eof:
     c["eof"] = True
+  # a quarter of the scenarios deliver the corrupted header in two reads, a quarter header and body separately
+  seg = idx % 4
+  if seg >= 2:
+    off = sum(len(R.build(it["m"]).data) for it in victim[:place])
+    c["vcuts"] = [off + 3] if seg == 2 else [off + 8]
   return c
 
 
@@ -864,10 +869,13 @@ def case_strategy(draw, tier):
 
 
 def plan(tier):
-  n = 4000 if tier == "quick" else 120000
+  from ..fuzz import c10_ofstream
+  n = 4000 if tier == "quick" else 160000
   return [
     Enum("header", lambda: enum_header(tier), shards=16),
     Enum("embedded", lambda: enum_embedded(tier), shards=16),
     Enum("truncation", lambda: enum_trunc(tier), shards=16),
     Hyp("mutation", lambda: case_strategy(tier), examples=n, shards=16),
+    # coverage-guided (atheris/libFuzzer) campaigns on both loops; skipped with a note if atheris is missing
+    Custom("atheris", c10_ofstream.driver(3000 if tier == "quick" else 130000), shards=2 if tier == "quick" else 16),
   ]
